@@ -54,7 +54,12 @@ pub enum Op {
     NewImg { slot: u8 },
     ImgSet { slot: u8, s: RSetter },
     ImgRender { slot: u8, qr: QrRef, pixmap: bool },
-    Term { qr: QrRef },
+    /// terminal rendering: `to_str()`, or (print = true) `print()` with the bytes it sends to fd 1 captured
+    Term {
+        qr: QrRef,
+        #[serde(default, skip_serializing_if = "std::ops::Not::not")]
+        print: bool,
+    },
     Nop,
 }
 
@@ -855,14 +860,15 @@ fn exec_op(
             sched::op_end(sim, id);
             finish_render(oracle, &key, outcome, &v, id, op_index, kind, spec)
         }
-        Op::Term { qr } => {
+        Op::Term { qr, print } => {
             let Some(v) = resolve_qr(*qr, local, shared) else {
                 return false;
             };
-            let key = format!("R|term|{}", v.digest);
-            let spec = Some(OneSpec { cfg: v.cfg.clone(), render: Some(("term".into(), vec![])) });
+            let rk = if *print { "print" } else { "term" };
+            let key = format!("R|{}|{}", rk, v.digest);
+            let spec = Some(OneSpec { cfg: v.cfg.clone(), render: Some((rk.into(), vec![])) });
             sched::op_begin(sim, id, crash);
-            let outcome = render_term_outcome(v.qr);
+            let outcome = render_term_outcome(v.qr, *print);
             sched::op_end(sim, id);
             finish_render(oracle, &key, outcome, &v, id, op_index, kind, spec)
         }
@@ -895,7 +901,18 @@ pub fn render_img_outcome(b: &ImageBuilder, q: &QRCode, pixmap: bool) -> Outcome
     }
 }
 
-pub fn render_term_outcome(q: &QRCode) -> Outcome {
+pub fn render_term_outcome(q: &QRCode, print: bool) -> Outcome {
+    if print {
+        // `QRCode::print` writes to the process's stdout; the bytes this thread sends to fd 1
+        // while the call runs are captured by the `write` shim instead of reaching the terminal
+        crate::c19::shim::capture_stdout_begin();
+        let r = catch_unwind(AssertUnwindSafe(|| q.print()));
+        let bytes = crate::c19::shim::capture_stdout_end();
+        return match r {
+            Ok(()) => bytes_outcome(&bytes),
+            Err(p) => classify_panic(p),
+        };
+    }
     match catch_unwind(AssertUnwindSafe(|| q.to_str())) {
         Ok(s) => bytes_outcome(s.as_bytes()),
         Err(p) => classify_panic(p),
@@ -917,7 +934,8 @@ pub fn evaluate_one(spec: &OneSpec) -> Outcome {
         "svg" => render_svg_outcome(&svg_builder_from(setters), &qr),
         "png" => render_img_outcome(&img_builder_from(setters), &qr, false),
         "pixmap" => render_img_outcome(&img_builder_from(setters), &qr, true),
-        _ => render_term_outcome(&qr),
+        "print" => render_term_outcome(&qr, true),
+        _ => render_term_outcome(&qr, false),
     }
 }
 
